@@ -5,6 +5,7 @@
 
 Generated (only rewritten when the text changed, so `make` stays incremental):
     Consts_gen.v     numeric constants of utils/constants.py as exact rationals
+    ConstsFlt_gen.v  the binary64 values of the same constants and of every numeric literal of math/distance.py (hex floats)
     Decorator_gen.v  the wrapper body of utils/decorator.py:avoid_zero_division as an effect program
     Metrics_gen.v    one `ir_<name> : metric_ir` per `def <name>_distance` of math/distance.py
     Registry_gen.v   DISTANCES, the whitelist of OPF.distance's setter, constructor plumbing facts
@@ -871,6 +872,60 @@ def emit_consts(repo, consts):
     return "".join(o)
 
 
+def cq_float(v):
+    """Coq hex float literal of a finite Python float (exact: float.hex())"""
+    v = float(v)
+    if v != v or v in (float("inf"), float("-inf")):
+        raise Unsupported("non-finite float constant %r" % (v,))
+    return "(%s)%%float" % v.hex()
+
+
+def ir_literals(node, acc):
+    """all (num, den) of the SConstQ nodes of an IR term, in order of first occurrence"""
+    if isinstance(node, (list, tuple)):
+        if node and node[0] == "SConstQ":
+            k = (int(node[1]), int(node[2]))
+            if k not in acc:
+                acc.append(k)
+        else:
+            for ch in node:
+                ir_literals(ch, acc)
+    return acc
+
+
+def emit_consts_flt(consts, metrics):
+    """binary64 values of the named constants and of every numeric literal / parameter default of distance.py.
+
+    The value is the double Python itself uses: float(<exact rational of the source text>), i.e. the correctly rounded
+    conversion that the Python parser performs on a float literal and that int -> float64 promotion performs on an int literal
+    (exact below 2^53; larger integer literals are left out of the table, so that Model/MetricFlt.v evaluates to None on them)."""
+    import sys as _sys
+    o = [HEADER % "opfython/utils/constants.py, opfython/math/distance.py (binary64 values)"]
+    o.append("From Coq Require Import QArith Floats List.\nFrom OPF Require Import Model.Consts.\nImport ListNotations.\n\n")
+    for k in ("EPSILON", "MAX_ARC_WEIGHT", "MAX_DENSITY"):
+        q = consts[k]
+        o.append("Definition cf_%s : float := %s.   (* float(%s) *)\n" % (k, cq_float(float(q)), q))
+    o.append("Definition cf_FLOAT_MAX : float := %s.   (* sys.float_info.max *)\n\n" % cq_float(_sys.float_info.max))
+    o.append("(* mirrors cvalQ: FLOAT_MAX is known to the exact-rational tables by name only *)\n")
+    o.append("Definition cvalF (n : cname) : option float :=\n  match n with\n  | CEpsilon => Some cf_EPSILON\n"
+             "  | CMaxArcWeight => Some cf_MAX_ARC_WEIGHT\n  | CMaxDensity => Some cf_MAX_DENSITY\n  | CFloatMax => None\n  end.\n\n")
+    lits = []
+    for m in metrics:
+        ir_literals(m["body"], lits)
+        for _, q in m["params"]:
+            if q is not None and (int(q[0]), int(q[1])) not in lits:
+                lits.append((int(q[0]), int(q[1])))
+    lits.sort(key=lambda t: Fraction(t[0], t[1]))
+    rows = []
+    for num, den in lits:
+        if den == 1 and abs(num) > 2 ** 53:
+            continue
+        rows.append("(%s, %s)" % (cq_q(num, den), cq_float(float(Fraction(num, den)))))
+    o.append("(* every numeric literal and parameter default occurring in distance.py, with the double Python uses for it *)\n")
+    o.append("Definition lit_floats : list (Q * float) :=\n  [ %s ].\n" % ";\n    ".join(rows))
+    return "".join(o)
+
+
 def emit_decorator(dec):
     o = [HEADER % "opfython/utils/decorator.py (avoid_zero_division)"]
     o.append("From Coq Require Import String List.\nFrom OPF Require Import Model.Consts Model.Effects.\n"
@@ -937,6 +992,7 @@ def translate(repo):
     ctors = parse_models(repo)
     files = {
         "Consts_gen.v": emit_consts(repo, consts),
+        "ConstsFlt_gen.v": emit_consts_flt(consts, metrics),
         "Decorator_gen.v": emit_decorator(dec),
         "Metrics_gen.v": emit_metrics(metrics),
         "Registry_gen.v": emit_registry(reg, wl, init_ok, ctors),
